@@ -242,3 +242,35 @@ def shared_polarity_formulas(leaves=(('ap', 'p'), ('ap', 'q'))):
                     ('U', h, ('not', h)), ('imp', h, ('X', h)), ('or', ('and', h, x), ('and', ('not', h), ('not', x))), ('R', ('not', h), ('or', x, h)),
                     ('imp', ('not', h), ('F', h)), ('and', ('or', x, ('not', h)), ('or', h, x)), ('G', ('imp', h, ('or', x, h))), ('not', ('imp', h, ('and', x, h)))]
     return dedup(out)
+
+
+def rand_prop(rnd, leaves_n, atoms=(('ap', 'p'), ('ap', 'q'))):
+    """a long propositional formula with about leaves_n leaves (n-ary and/or included)"""
+    if leaves_n <= 1:
+        x = rnd.choice(list(atoms) + [TR, FA] if rnd.random() < 0.15 else list(atoms))
+        return ('not', x) if rnd.random() < 0.4 else x
+    k = rnd.choice([2, 2, 3])
+    parts = []
+    left = leaves_n
+    for i in range(k):
+        take = max(1, left // (k - i)) if i < k - 1 else left
+        parts.append(rand_prop(rnd, take, atoms))
+        left -= take
+        if left <= 0:
+            break
+    if len(parts) == 1:
+        return parts[0]
+    op = rnd.choice(['and', 'or', 'imp'] if len(parts) == 2 else ['and', 'or'])
+    return (op,) + tuple(parts)
+
+
+def rand_long_path(rnd):
+    """a path formula that prints long (well over 64 characters) but has at most 4 temporal operators"""
+    def unit():
+        a, b = rand_prop(rnd, rnd.randint(3, 6)), rand_prop(rnd, rnd.randint(2, 5))
+        return rnd.choice([('G', ('imp', a, ('F', b))), ('G', a), ('F', ('and', a, ('X', b))), ('U', a, b), ('G', ('F', a)), ('F', ('G', b)), ('R', a, b)])
+    u = [unit()]
+    if rnd.random() < 0.6:
+        u.append(unit())
+    g = u[0] if len(u) == 1 else (rnd.choice(['and', 'or']),) + tuple(u)
+    return g
